@@ -226,7 +226,8 @@ func (XORObfuscator) TryReveal(cipherText []byte, privateKey [32]byte) ([]byte, 
 func (XORObfuscator) Obfuscate(plainText []byte, stationPubkey []byte) ([]byte, error) {
 	lp := len(plainText)
 	if lp == 0 {
-		return []byte{}, nil
+		// TryReveal does not accept an empty message: refuse to produce one.
+		return nil, errors.New("cannot obfuscate an empty message")
 	}
 	out := make([]byte, lp*2)
 
